@@ -16,6 +16,7 @@ import KadDHT.Driver.C08
 import KadDHT.Driver.C06
 import KadDHT.Driver.C15
 import KadDHT.Driver.C16
+import KadDHT.Driver.C11
 open KadDHT.Driver
 
 def main (args : List String) : IO UInt32 := do
@@ -23,6 +24,8 @@ def main (args : List String) : IO UInt32 := do
   | ["C18"] => runPure C18.handle; return 0
   | ["C18v"] => runPure C18v.handle; return 0
   | ["C19"] => runLoop C19.step {}; return 0
+  | ["C11"] => runLoop C11.step {}; return 0
+  | ["C11v"] => runLoop C11.verdict (); return 0
   | ["C16"] => runPure C16.handle; return 0
   | ["C16v"] => runPure C16.verdict; return 0
   | ["C16c"] => runPure C16.crawlHandle; return 0
